@@ -385,12 +385,26 @@ class AddField(_FIOBase):
     expected_exceptions = (AssertionError,)
 
     def instances(self, tier):
-        return [dict(partial=False), dict(partial=True), dict(partial=True, bad='size'), dict(partial=True, bad='dtype'), dict(partial=True, bad='uninit')]
+        return [dict(partial=False), dict(partial=True), dict(partial=True, bad='size'), dict(partial=True, bad='dtype'), dict(partial=True, bad='uninit'),
+                dict(partial=True, warm=True), dict(partial=False, warm=True)]
 
     def build(self, inst, mk):
         st = self.mk_io(mk, partial=inst['partial'])
         size = st.nItems + 1 if inst.get('bad') == 'size' else st.nItems
         st.field = SymField(np.float32 if inst.get('bad') == 'dtype' else np.float64, size)
+        if inst.get('warm'):
+            # history: the SAME handle has appended before (to a file of another size, with a partial tail of its own or none); then the file
+            # reached its present state -- e.g. this handle's next append was cut short (exception, full disk) and the handle stays alive, or
+            # another process appended.  What the handle learnt about the end of the file then must not decide where the record lands now.
+            now = st.gf.size
+            pb = mk.int('partialTailBefore')
+            mk.assume(And(pb >= 0, pb < st.R), '0<=earlier partial<record')
+            st.gf.size = st.H + mk.int('recordsBefore') * st.R + pb
+            mk.assume(st.gf.size >= st.H + pb, 'earlier size well-formed')
+            st.io.addField(0.25, SymField(np.float64, st.nItems))
+            st.io.nFields
+            st.gf.size = now
+            st.gf.log.clear()
         if inst.get('bad') == 'uninit':
             st.io.initialized = False
         st.size0 = st.gf.size
